@@ -328,4 +328,5 @@ def canaries(tier):
 def native_replay(ob):
     """Observable consequence of a wrong adjoint vector field: the adjoint gradient no longer agrees with backpropagation at a fine step."""
     from props.base import run_native
-    return run_native('c09')
+    r = run_native('c11')
+    return r if r.get('reproduced') else run_native('c09')
